@@ -17,6 +17,8 @@ CONSTANTS TSeq,       \* sequence of tensor objects (strings); unborn objects ar
           FreshL,     \* sequence of machine generated labels (rand_uuid), used in order
           Tags,
           MaxDepth,
+          Prefill,    \* TRUE: start with two populated networks (n1 holds t1, n2 holds t2 and t3) so that the
+                      \*       combining actions are reached within a small depth
           Record,     \* TRUE: keep the history variable `hist` (simulation for replay only)
           PreFix,     \* TRUE: _unlink_inds as before the fix (self-test, must violate MapsExact)
           Repeats   \* TRUE: allow renaming that creates or moves a label carried twice by one tensor
@@ -250,6 +252,62 @@ AddNetVirtual(n, m) ==
   /\ UNCHANGED <<tens, nfresh>>
   /\ Bump([op |-> "addnet", n |-> n, m |-> m])
 
+\* c = a & b  /  c = a | b : TensorNetwork((a, b), virtual=...) - a new network, the tensors of a then of b are
+\* added (copied unless virtual); bonds of b that clash with bonds already in c are renamed to fresh labels
+\* (on a copy of the tensor, or - virtual - in place on b's own tensor, which tells all its owners)
+RECURSIVE CombineLoop(_, _, _, _, _, _, _, _)
+CombineLoop(items, c, ns, ts, ow, reind, virtual, nf) ==
+  \* items: sequence of <<source tensor, tid>> still to add; returns <<ns, ts, ow>>
+  IF items = <<>> THEN <<ns, ts, ow>>
+  ELSE LET t    == items[1][1]
+           tid  == items[1][2]
+           hit  == \E k \in DOMAIN ts[t].inds : ts[t].inds[k] \in DOMAIN reind
+           newi == [k \in DOMAIN ts[t].inds |-> IF ts[t].inds[k] \in DOMAIN reind THEN reind[ts[t].inds[k]] ELSE ts[t].inds[k]]
+       IN
+       IF virtual
+       THEN \* rename in place (owners are told), then share the object
+            LET ns1 == IF hit
+                       THEN [m \in NetSet |->
+                              IF \E q \in ow[t] : q[1] = m
+                              THEN LET qt == (CHOOSE q \in ow[t] : q[1] = m)[2] IN
+                                   LinkIndsSet(UnlinkIndsSet(ns[m], Range(ts[t].inds) \ Range(newi), qt), Range(newi) \ Range(ts[t].inds), qt)
+                              ELSE ns[m]]
+                       ELSE ns
+                ts1 == IF hit THEN [ts EXCEPT ![t].inds = newi] ELSE ts
+                r   == AddObj(ns1[c], t, ts1[t], tid)
+            IN CombineLoop(Tail(items), c, [ns1 EXCEPT ![c] = r[1]], ts1, [ow EXCEPT ![t] = @ \cup {<<c, r[2]>>}], reind, virtual, nf)
+       ELSE \* copy (the copy carries the renamed labels)
+            LET u   == FirstUnbornIn(ts)
+                ts1 == [ts EXCEPT ![u] = [born |-> TRUE, inds |-> newi, tags |-> ts[t].tags]]
+                r   == AddObj(ns[c], u, ts1[u], tid)
+            IN CombineLoop(Tail(items), c, [ns EXCEPT ![c] = r[1]], ts1, [ow EXCEPT ![u] = {<<c, r[2]>>}], reind, virtual, nf)
+
+\* tids of a network in increasing order, as <<tensor, tid>> items
+RECURSIVE ItemsOf(_, _)
+ItemsOf(tmap, S) == IF S = {} THEN <<>>
+                    ELSE LET i == CHOOSE j \in S : \A k \in S : j <= k IN <<<<tmap[i], i>>>> \o ItemsOf(tmap, S \ {i})
+
+Combine(a, b, c, virtual) ==
+  /\ a # b /\ nets[a].alive /\ nets[b].alive
+  /\ ~nets[c].alive /\ nets[c].ctr = 0 /\ nets[c].tmap = <<>>
+  /\ DOMAIN nets[a].tmap # {} /\ DOMAIN nets[b].tmap # {}
+  /\ Range(nets[a].tmap) \cap Range(nets[b].tmap) = {}         \* (no object would be held twice)
+  /\ virtual \/ Cardinality(Unborn) >= Cardinality(DOMAIN nets[a].tmap) + Cardinality(DOMAIN nets[b].tmap)
+  /\ LET c0    == [EmptyNet EXCEPT !.alive = TRUE]
+         ns0   == [nets EXCEPT ![c] = c0]
+         ra    == CombineLoop(ItemsOf(nets[a].tmap, DOMAIN nets[a].tmap), c, ns0, tens, own, <<>>, virtual, nfresh)
+         clash == ra[1][c].inner \cap nets[b].inner
+         k     == Cardinality(clash)
+     IN
+     /\ nfresh + k <= Len(FreshL)
+     /\ LET cs    == ItemsOf([x \in clash |-> x], {})  \* (unused)
+            order == CHOOSE f \in [1..k -> clash] : \A i, j \in 1..k : i # j => f[i] # f[j]
+            reind == [x \in clash |-> FreshL[nfresh + (CHOOSE i \in 1..k : order[i] = x)]]
+            rb    == CombineLoop(ItemsOf(nets[b].tmap, DOMAIN nets[b].tmap), c, ra[1], ra[2], ra[3], reind, virtual, nfresh)
+        IN /\ nets' = rb[1] /\ tens' = rb[2] /\ own' = rb[3]
+           /\ nfresh' = nfresh + k
+  /\ Bump([op |-> "combine", a |-> a, b |-> b, c |-> c, virtual |-> virtual])
+
 \* the last strong reference to a network is dropped
 GC(n) ==
   /\ nets[n].alive
@@ -268,8 +326,17 @@ Init ==
                  ELSE IF t = InitT[2] THEN [born |-> TRUE, inds |-> i2, tags |-> {"P", "Q"}]
                  ELSE IF t = InitT[3] THEN [born |-> TRUE, inds |-> i3, tags |-> {}]
                  ELSE [born |-> FALSE, inds |-> <<>>, tags |-> {}]]
-  /\ nets = [n \in NetSet |-> EmptyNet]
-  /\ own = [t \in TObjs |-> {}]
+  /\ IF Prefill
+     THEN LET e  == [EmptyNet EXCEPT !.alive = TRUE]
+              r1 == AddObj(e, InitT[1], tens[InitT[1]], -1)
+              r2 == AddObj(e, InitT[2], tens[InitT[2]], -1)
+              r3 == AddObj(r2[1], InitT[3], tens[InitT[3]], -1) IN
+          /\ nets = [n \in NetSet |-> IF n = Nets[1] THEN r1[1] ELSE IF n = Nets[2] THEN r3[1] ELSE EmptyNet]
+          /\ own = [t \in TObjs |-> IF t = InitT[1] THEN {<<Nets[1], r1[2]>>}
+                                   ELSE IF t = InitT[2] THEN {<<Nets[2], r2[2]>>}
+                                   ELSE IF t = InitT[3] THEN {<<Nets[2], r3[2]>>} ELSE {}]
+     ELSE /\ nets = [n \in NetSet |-> EmptyNet]
+          /\ own = [t \in TObjs |-> {}]
   /\ nfresh = 0 /\ depth = 0 /\ act = [op |-> "init"]
   /\ hist = IF Record THEN <<StateJson(0, [op |-> "init"], nets, tens, own)>> ELSE <<>>
 
@@ -282,8 +349,9 @@ NReindexA  == \E n \in NetSet, x \in Labels, y \in Labels : NReindex(n, x, y)
 CopyA      == \E n \in NetSet, m \in NetSet, v \in BOOLEAN : Copy(n, m, v)
 AddNetA    == \E n \in NetSet, m \in NetSet : AddNetVirtual(n, m)
 GCA        == \E n \in NetSet : GC(n)
+CombineA   == \E a \in NetSet, b \in NetSet, c \in NetSet, v \in BOOLEAN : Combine(a, b, c, v)
 
-Next == NewNetA \/ AddTensorA \/ PopA \/ TReindexA \/ TRetagA \/ NReindexA \/ CopyA \/ AddNetA \/ GCA
+Next == NewNetA \/ AddTensorA \/ PopA \/ TReindexA \/ TRetagA \/ NReindexA \/ CopyA \/ AddNetA \/ GCA \/ CombineA
 Spec == Init /\ [][Next]_vars
 
 \* a complete behaviour is printed when it reaches the depth bound (every prefix of it is replayed too)
@@ -295,5 +363,10 @@ LiveNets == [n \in Alive |-> nets[n]]
 MapsExact   == \A n \in Alive : MapsExactOne(nets[n], tens)
 OwnersExact == \A t \in Born : OwnersExactOne(t, own[t], LiveNets)
 \* an object is held at most once per network (precondition of the owner registry, kept by the actions)
+\* combining never makes two previously distinct bonds coincide and never renames an outer label:
+\* in the state after a Combine step the new network satisfies C02_Defs!NoCapture w.r.t. the two sources before it
+NoCaptureStep ==
+  [][ (act'.op = "combine" /\ depth' = depth + 1) =>
+        NoCapture(nets[act'.a], tens, nets[act'.b], tens, nets'[act'.c], tens') ]_vars
 HeldOnce    == \A n \in Alive : \A i, j \in DOMAIN nets[n].tmap : nets[n].tmap[i] = nets[n].tmap[j] => i = j
 =============================================================================
